@@ -20,7 +20,12 @@ PY
 fi
 worker() {
   i=$1; W=$ROOT/w$i
-  git -C /repo worktree add --detach $W/repo HEAD -q 2>/dev/null || { echo "worker $i: worktree failed"; return; }
+  ok=0
+  for try in 1 2 3 4 5 6; do      # concurrent `git worktree add` calls contend for a lock: retry
+    if git -C /repo worktree add --detach $W/repo HEAD -q 2>/dev/null; then ok=1; break; fi
+    sleep $((i + try))
+  done
+  [ $ok = 1 ] || { echo "worker $i: worktree failed"; return; }
   mkdir -p $W/ev
   cp -a /verif/.cache $W/cache 2>/dev/null; rm -rf $W/cache/facts $W/cache/lock
   export RCGEN_REPO=$W/repo VERIF_CACHE_DIR=$W/cache VERIF_EVIDENCE_DIR=$W/ev
@@ -55,6 +60,7 @@ $r"
 for i in $(seq 0 $((N-1))); do worker $i > $ROOT/out.$i 2>&1 & done
 wait
 cat $ROOT/out.* | grep -v ": fired " 
+grep -h "worktree failed" $ROOT/out.* && echo "--- INCOMPLETE RUN: some workers did not start"
 echo "--- summary: $(cat $ROOT/out.* | grep -c ': silent') silent, $(cat $ROOT/out.* | grep -c 'FALSE ALARM') false alarms, $(cat $ROOT/out.* | grep -c ': fired ') fired, $(cat $ROOT/out.* | grep -c 'MISSED') missed, $(cat $ROOT/out.* | grep -c 'does not apply') skipped"
 rm -rf $ROOT
 git -C /repo worktree prune
